@@ -42,7 +42,7 @@ func exec(op string) vlib.Res {
 	if len(f) < 2 {
 		return vlib.Res{Impl: "bad-op"}
 	}
-	if f[1] == "new" && f[0] != "e2e" && f[0] != "lad" && f[0] != "rl" && f[0] != "as" && f[0] != "sock" {
+	if f[1] == "new" && f[0] != "e2e" && f[0] != "lad" && f[0] != "rl" && f[0] != "as" && f[0] != "sock" && f[0] != "hs" {
 		return vlib.Res{Impl: "ok", Oracle: "-"}
 	}
 	switch f[0] {
@@ -68,6 +68,8 @@ func exec(op string) vlib.Res {
 		if f[1] == "serve" {
 			return execED(kv(f[2:]))
 		}
+	case "hs":
+		return execHS(f)
 	case "rx":
 		if f[1] == "facts" {
 			return execRX(kv(f[2:]))
@@ -812,6 +814,7 @@ func facts() map[string]any {
 }
 
 func main() {
+	defer hsCleanup()
 	defer stopLive()
 	vlib.Main(&vlib.Driver{Facts: facts, Exec: exec, Gen: gen})
 }
